@@ -262,5 +262,71 @@ func runGenState(p *core.Prog) *core.Result {
 		}
 	}
 	delegationCleared(p, res)
+	// (c) "executing" is a transient state: step() replaces it on every normal path, a Go panic
+	// (interrupt, stack overflow - also one raised by enterNext before the body resumed) skips step().
+	// Every function that stores genStateExecuting registers, in the same block and before any other
+	// call, a deferred function that stores another state, or the generator can never be resumed again
+	// ("Illegal generator state" for ever).
+	executing, err := constVal("genStateExecuting")
+	if err != nil {
+		return res.Fail(err)
+	}
+	nExec := map[string]int{}
+	for _, w := range p.FieldWrites(fState) {
+		st, ok := w.Instr.(*ssa.Store)
+		if !ok || w.Kind != "store" {
+			continue
+		}
+		if v, okc := core.IntConst(st.Val); !okc || v != executing {
+			continue
+		}
+		k := core.FuncName(w.Fn) + ":executing state is left by a deferred function on a Go panic"
+		nExec[k]++
+		key := k
+		if nExec[k] > 1 {
+			key = fmt.Sprintf("%s#%d", k, nExec[k])
+		}
+		// the next instructions of the block: a Defer whose target stores generatorObject.state
+		okDefer, why := false, "no defer follows in the block"
+		b := st.Block()
+		for _, in := range b.Instrs[core.InstrIndex(st)+1:] {
+			if d, isDefer := in.(*ssa.Defer); isDefer {
+				var fn *ssa.Function
+				switch x := d.Call.Value.(type) {
+				case *ssa.MakeClosure:
+					fn, _ = x.Fn.(*ssa.Function)
+				case *ssa.Function:
+					fn = x
+				}
+				if fn == nil {
+					fn = d.Call.StaticCallee()
+				}
+				if fn != nil {
+					core.AllInstrs(fn, func(in2 ssa.Instruction) {
+						if s2, ok := in2.(*ssa.Store); ok && core.FieldOf(s2.Addr) == fState {
+							if v, okc := core.IntConst(s2.Val); okc && v != executing {
+								okDefer = true
+							}
+						}
+					})
+				}
+				if !okDefer {
+					why = "the deferred function does not store another state"
+				}
+				break
+			}
+			if c, isCall := in.(ssa.CallInstruction); isCall {
+				if _, isB := c.Common().Value.(*ssa.Builtin); !isB {
+					why = "a call comes before any defer"
+					break
+				}
+			}
+		}
+		if okDefer {
+			res.OK(key, p.Pos(st.Pos()), "followed by a defer that takes the generator out of the executing state")
+		} else {
+			res.Bad(key, p.Pos(st.Pos()), "the generator is put into the executing state and only step() takes it out again ("+why+"): an interrupt or stack overflow unwinding through the resumption - enterNext's pushCtx can raise one before the body has run at all - leaves it executing for ever, every later next()/return()/throw() fails with \"Illegal generator state\"")
+		}
+	}
 	return res
 }
